@@ -184,6 +184,10 @@ func raceSummary(rep string) string {
 }
 
 var c06Hand = []string{
+	// updates whose right-hand side yields nothing (paths are collected and deleted at the end), flat and nested
+	".[] |= empty", ".c |= (.[] |= empty)?", "(.a, .c) |= empty", "map_values(empty)", "map_values(select(. != 1))?", "(.. | numbers) |= empty", ".c[] |= select(type == \"number\")", "[1,2,3,4,5,6,7,8,9,10] | (.[] | select(. % 2 == 0)) |= empty",
+	"[[1,2],[3,4]] | .[] |= (.[0] |= empty)", "{\"a\":[1,2,3],\"b\":[4,5]} | map_values(map_values(empty))", "[range(20)] | (.[] | select(. > 3)) |= empty | length", "(.a, .c, .a) |= (if type == \"object\" then map_values(empty) else empty end)?",
+	"del(.[]?)", "del(.c[0], .a)", "[.[]?] | (.[0], .[1]) |= empty", "to_entries | map(select(.key != \"a\")) | from_entries?", "with_entries(select(.value != null))?", "walk(if type == \"number\" then empty else . end)?",
 	"del(.a.q)", "del(.a.b)", "del(.c[0])", "delpaths([[\"a\", \"q\"]])", "{\"a\":{\"b\":1},\"c\":[1,{\"d\":2}]} | del(.a.q)", "[3,1,2] | sort", "{\"a\":[3,1,2]} | .a | sort", ".a |= . + 1?", ".c |= map(.)?", ".c[1].d += 1",
 	".[] += 1?", "map_values(. )?", "to_entries", "with_entries(.)?", "add?", "[.[]?] | add?", "flatten?", "[.. ] | length", "paths", "[paths] | length", "tostream", "fromstream(tostream)", "walk(.)", "tojson", "tojson | fromjson", "keys?", "sort?", "group_by(.)?", "unique?", "min?, max?",
 	"reverse?", "transpose?", ". + .?", ". * .?", ". - .?", ".c + .c", ".a + .a", "[.c[], .c[]]", ".c[1:] + .c[:1]", ".c | .[1:] | . + [0]", "del(.c[1:])", "del(.. | select(. == 1))?", "(.. | numbers) |= . + 1", ".. |= .", "[limit(3; ..)]", "first(..)", "getpath([\"a\", \"b\"])?", "setpath([\"a\", \"b\"]; 5)?",
